@@ -17,8 +17,8 @@ func TestD16ReservedPortTakesOverUsedPort(t *testing.T) {
 	if err != nil || p != 38211 {
 		t.Skipf("port busy on this host: %v", err)
 	}
-	pm.Release(38211)                  // b closed; reservation b->38211 stays
-	p, err = pm.Acquire("a", 38211)    // a now owns 38211 (has not called net.Listen yet)
+	pm.Release(38211)               // b closed; reservation b->38211 stays
+	p, err = pm.Acquire("a", 38211) // a now owns 38211 (has not called net.Listen yet)
 	if err != nil || p != 38211 {
 		t.Fatalf("a could not acquire: %v", err)
 	}
